@@ -55,7 +55,7 @@ def main():
         engines.append(e)
     man = {
         "version": 1,
-        "setup_cmd": "/venv/bin/python -m compileall -q mc >/dev/null 2>&1; mkdir -p .work evidence replays; true",
+        "setup_cmd": "mkdir -p .work evidence replays; gcc -O2 -shared -fPIC -o native/chunkcache.so native/chunkcache.c; /venv/bin/python -m compileall -q mc >/dev/null 2>&1; true",
         "hooks": {
             "guard": "TEXTX_VERIF",
             "enable": "no hooks: checks import textX from /repo's working tree (PYTHONPATH=/repo) and drive it through public callbacks and module attributes; the guard name is reserved and unused",
